@@ -744,7 +744,7 @@ def _run_resample(sh, params):
 # =====================================================================================
 
 FAMILIES = ["uniform", "jitter", "gaps", "repeats", "shifts", "dropouts", "unsorted",
-            "gaps+jitter", "dyadic-gaps", "mix"]
+            "gaps+jitter", "dyadic-gaps", "mix", "drift"]
 
 
 def _make_record(r, fam):
@@ -767,6 +767,23 @@ def _make_record(r, fam):
     dropval = -1.40130e-45
     if fam in ("jitter", "gaps+jitter", "mix", "shifts", "unsorted"):
         t = t + r.uniform(-0.24, 0.24, N) * dt * (1.0 if fam != "shifts" else 0.2)
+    if fam == "drift":
+        # cumulative clock drift: every step within ~20 % of nominal, same sample count,
+        # both ends on the nominal grid -- but the middle is several steps off, so the
+        # nearest sample is NOT the one with the same index
+        N = max(N, 140)
+        k = np.arange(N)
+        ids = k.astype(float)
+        keep = np.ones(N, bool)
+        planted = np.zeros(N, bool)
+        if r.random() < 0.6:
+            A = float(r.uniform(0.8, 0.2 * (N - 1) / (2 * np.pi)))
+            off = A * np.sin(2 * np.pi * k / (N - 1))
+        else:
+            w = np.cumsum(r.uniform(-0.2, 0.2, N))
+            off = w - w[0] - (w[-1] - w[0]) * k / (N - 1)          # pinned random walk
+            off *= min(1.0, 0.2 / max(np.abs(np.diff(off)).max(), 1e-12))
+        t = t0 + (k + off) / sr
     if fam in ("gaps", "gaps+jitter", "dyadic-gaps", "mix"):
         ng = int(r.integers(1, 5))
         for _ in range(ng):
